@@ -1230,6 +1230,14 @@ def judge(rec, m):
 NUMERIC_RUN_FAILURES = ("ValueError", "_LinAlgError", "FloatingPointError", "ZeroDivisionError")
 
 
+def _count(xs):
+    out = {}
+    for x in xs:
+        if x:
+            out[x] = out.get(x, 0) + 1
+    return out
+
+
 def _norm(s):
     return re.sub(r"[^A-Za-z0-9_.`']+", "-", s)[:100]
 
@@ -1253,22 +1261,29 @@ def _type_of(j, id_):
 
 # --------------------------------------------------------------------------- pool
 
-def run_pool(cfgs, workers):
-    if not cfgs:
-        return []
-    os.environ["PYTHONPATH"] = f"{C.REPO}:/verif:" + os.environ.get("PYTHONPATH", "")
-    n = max(1, min(workers, (len(cfgs) + 3) // 4))
-    chunks = [cfgs[i::n] for i in range(n)]
-    ctx = _mp.get_context("fork")
-    out = [None] * len(cfgs)
-    with _cf.ProcessPoolExecutor(max_workers=n, mp_context=ctx) as ex:
-        futs = {ex.submit(run_many, ch): k for k, ch in enumerate(chunks)}
+class Pool:
+    """worker processes (forked before the parent ever touches torch), reused across rounds"""
+
+    def __init__(self, workers):
+        os.environ["PYTHONPATH"] = f"{C.REPO}:/verif:" + os.environ.get("PYTHONPATH", "")
+        self.n = max(1, workers)
+        self.ex = _cf.ProcessPoolExecutor(max_workers=self.n, mp_context=_mp.get_context("fork"))
+
+    def run(self, cfgs):
+        if not cfgs:
+            return []
+        size = max(1, min(6, (len(cfgs) + self.n - 1) // self.n))
+        chunks = [(k, cfgs[k:k + size]) for k in range(0, len(cfgs), size)]
+        out = [None] * len(cfgs)
+        futs = {self.ex.submit(run_many, ch): k for k, ch in chunks}
         for fu in _cf.as_completed(futs):
             k = futs[fu]
-            res = fu.result()
-            for i, r in enumerate(res):
-                out[k + i * n] = r
-    return out
+            for i, r in enumerate(fu.result()):
+                out[k + i] = r
+        return out
+
+    def close(self):
+        self.ex.shutdown(wait=True, cancel_futures=True)
 
 
 def sync():
@@ -1329,9 +1344,10 @@ def run(tier, seed, replay=None):
     results = []
     covered_pairs, tried = set(), {}
     n_rounds = 0
+    pool = Pool(1 if replay else workers)
     if not replay:
         todo = set(universe)
-        rounds = 3 if tier == "quick" else 4
+        rounds = 2 if tier == "quick" else 3
         budget = 150 if tier == "quick" else 400
         extra = core_enumeration(rng) if tier != "quick" else []
         for rnd in range(rounds):
@@ -1345,7 +1361,7 @@ def run(tier, seed, replay=None):
                 new.append(dict(argv=argv, requests=req, run=True, cfg=c))
             if rnd == 0:
                 new = cfgs + new
-            res = run_pool(new, workers)
+            res = pool.run(new)
             for cf_, r in zip(new, res):
                 r["cfg"] = cf_.get("cfg")
                 r["requests"] = cf_.get("requests", {})
@@ -1361,9 +1377,10 @@ def run(tier, seed, replay=None):
             if not todo:
                 break
     else:
-        results = run_pool(cfgs, 1)
+        results = pool.run(cfgs)
         for r in results:
             r["requests"] = cfgs[0]["requests"]
+    pool.close()
     rep.timings["impl"] = round(time.time() - t0, 2)
 
     # ---- Coq: verified checkers on every emitted configuration
@@ -1425,6 +1442,7 @@ def run(tier, seed, replay=None):
                                 pairs_covered_by_accepted=len(covered_pairs & universe),
                                 pairs_only_in_rejected=len([p for p in universe if p not in covered_pairs])),
         configurations_clean=n_clean,
+        run_failures_numeric_not_reported=_count([r.get("numeric_run_failure") for r in okrecs]),
         cli_rejections_clear_error=reject_classes,
         cli_uncaught_exceptions_no_json_emitted={k: dict(count=v[0], example=v[1]) for k, v in
                                                  sorted(crash_classes.items())},
